@@ -150,6 +150,16 @@ func cmdLoopTrace(args []string) error {
 				c.Shape = append(c.Shape, fmt.Sprintf("wide/f%d", k))
 			}
 		}
+		// every eighth run: FEW consumers, more producers, callbacks that take a while, many nodes queued at once,
+		// all CPUs -- the setting in which a consumer pool of the wrong size shows as too many callbacks at once
+		if i%8 == 5 {
+			runtime.GOMAXPROCS(runtime.NumCPU())
+			c.Consumers, c.Producents, c.Work = 1+(i/8)%2, 4+(i/8)%3, 400*time.Microsecond
+			c.Shape = nil
+			for k := 0; k < 30; k++ {
+				c.Shape = append(c.Shape, fmt.Sprintf("d%d/f%d", k%3, k))
+			}
+		}
 		if r.Intn(3) == 0 {
 			c.DirReject = "skip"
 		}
